@@ -132,14 +132,53 @@ def one_case(rep, cs, seed, i):
     cs.add(desc, term, interp, nontrivial=g.desc["sums"] >= 1 and g.desc["prods"] >= 1)
 
 
+def dtype_case(rep, seed, i):
+    """precision configurations: the circuit is compiled while torch's default dtype is float32 and evaluated after the default
+    was switched to float64 (complex64 parameters): conjugate(c) must still be the conjugate"""
+    import torch
+    rng = rng_for(seed, PID + "dtype", i)
+    o = gen.random_opts(rng, kinds=["emb"], cplx=True)
+    sc, g = gen.gen_circuit(rng, **o)
+    fold, opt = rng.choice(evalc.FLAGS)
+    desc = {"i": i, "seed": seed, "family": "dtype-switch", "fold": fold, "opt": opt, **g.desc}
+    rep.count("family:dtype-switch")
+    rep.case(desc, True)
+    scope = sorted(sc.scope._set)
+    ys = gen.sample_inputs(rng, g.doms, scope, 3, exhaustive_limit=0)
+    try:
+        scj = SF.conjugate(sc)
+        torch.set_default_dtype(torch.float32)
+        ctx = evalc.make_ctx("complex-lse-sum", fold, opt)
+        cj = ctx.compile(scj)
+        c = ctx.get_compiled_circuit(sc)
+        torch.set_default_dtype(torch.float64)
+        x = evalc.to_batch(ys, evalc.width_of(sc)).long()
+        a = torch.exp(c(x)).detach().numpy()
+        b = torch.exp(cj(x)).detach().numpy()
+    except Exception as e:
+        rep.violation("conjugate-dtype-exception:" + type(e).__name__, "compiling under float32 and evaluating under float64 raised",
+                      {"case": desc, "exception": repr(e)[:300], "traceback": traceback.format_exc()[-1500:]})
+        return
+    finally:
+        torch.set_default_dtype(torch.float64)
+    if np.all(np.isfinite(a)) and not np.allclose(np.conj(a), b, rtol=1e-3, atol=1e-4 * max(1.0, float(np.max(np.abs(a))))):
+        rep.violation("conjugate-dtype-switch", "with complex64 parameters evaluated while the default dtype is float64, conjugate(c) is not the conjugate of c",
+                      {"case": desc, "inputs": ys, "observed": str(b.tolist()), "expected": str(np.conj(a).tolist())})
+
+
 def run(rep, tier, seed, replay=None):
     n = 60 if tier == "quick" else 600
     cs = CaseSet(rep, PID)
     if replay is not None:
         c = replay["replay"].get("case", {})
-        one_case(rep, cs, c.get("seed", seed), c.get("i", 0))
+        if c.get("family") == "dtype-switch":
+            dtype_case(rep, c.get("seed", seed), c.get("i", 0))
+        else:
+            one_case(rep, cs, c.get("seed", seed), c.get("i", 0))
         cs.run()
         return
     for i in range(n):
         one_case(rep, cs, seed, i)
+    for i in range(max(10, n // 6)):
+        dtype_case(rep, seed, i)
     cs.run(shard=max(4, 60 // 14))  # shard size of the quick tier: thorough runs use more files, not longer ones
